@@ -1438,10 +1438,10 @@ def run(ctx: Ctx):
     torch.set_num_threads(2)
     q = ctx.quick
     seeds = lambda n: [rng.randrange(1 << 40) for _ in range(n)]
-    run_clock(ctx, [gen_clock_case(s, q) for s in seeds(ctx.pick(70, 900))])
-    run_lin(ctx, [gen_lin_case(s, q) for s in seeds(ctx.pick(110, 1500))])
-    run_bmv(ctx, [gen_bmv_case(s, q) for s in seeds(ctx.pick(90, 1200))])
-    run_nls(ctx, [gen_nls_case(s, q) for s in seeds(ctx.pick(110, 1400))], ctx.pick(150, 2500))
+    run_clock(ctx, [gen_clock_case(s, q) for s in seeds(ctx.pick(300, 4000))])
+    run_lin(ctx, [gen_lin_case(s, q) for s in seeds(ctx.pick(500, 7000))])
+    run_bmv(ctx, [gen_bmv_case(s, q) for s in seeds(ctx.pick(300, 4000))])
+    run_nls(ctx, [gen_nls_case(s, q) for s in seeds(ctx.pick(450, 7000))], ctx.pick(500, 8000))
 
 
 def search(ctx: Ctx):
